@@ -325,7 +325,21 @@ func unmarshalSourceFile(source string) (*sourceFile, error) {
 	if len(file.RelPath) < 1 {
 		return nil, simpleTrzszError("Invalid source file: %s", source)
 	}
+	for _, name := range file.RelPath {
+		if !isValidPathElement(name) {
+			return nil, simpleTrzszError("Invalid source file: %s", source)
+		}
+	}
 	return &file, nil
+}
+
+// isValidPathElement returns whether a name supplied by the peer can be used as a single path element,
+// so that joining it onto the destination can never leave the destination directory.
+func isValidPathElement(name string) bool {
+	if name == "" || name == "." || name == ".." {
+		return false
+	}
+	return !strings.ContainsRune(name, '/') && !strings.ContainsRune(name, os.PathSeparator)
 }
 
 type targetFile struct {
